@@ -110,7 +110,37 @@ const char* const kRetName[] = {"plain", "Result", "throws|plain", "Future", "Sh
                                  "Task(coroutine)", "Future(coroutine)"};
 constexpr int kRetN = 8;
 
+// A copyable capture that owns a heap block. The blocks are made before the measured window and *moved* into the step
+// functors, which are handed to the library as rvalues: a library that forwards them allocates nothing for the
+// capture, one that copies a functor pays a second block for the step ("regardless of callback").
+struct HeapCap {
+  int* p = nullptr;
+  HeapCap() = default;
+  explicit HeapCap(int v) : p{new int{v}} {
+  }
+  HeapCap(const HeapCap& o) : p{o.p != nullptr ? new int{*o.p} : nullptr} {
+  }
+  HeapCap(HeapCap&& o) noexcept : p{std::exchange(o.p, nullptr)} {
+  }
+  HeapCap& operator=(HeapCap o) noexcept {
+    std::swap(p, o.p);
+    return *this;
+  }
+  ~HeapCap() {
+    delete p;
+  }
+};
+
 struct Ctx {
+  std::vector<HeapCap> caps;
+  HeapCap TakeCap() {
+    if (caps.empty()) {
+      return HeapCap{};
+    }
+    HeapCap c = std::move(caps.back());
+    caps.pop_back();
+    return c;
+  }
   std::vector<Step> prog;
   std::size_t pc = 0;
   TagExec ex[2];
@@ -463,14 +493,14 @@ void Apply(H h, Ctx& c, const Step& s) {
   if constexpr (Sig == 0) {
     if constexpr (std::is_void_v<V>) {
       Extend(Attach<Mode>(std::move(h), c, s,
-                          [cp, st, g, enter]() {
+                          [cp, st, g, enter, hc = c.TakeCap()]() {
                             enter(g);
                             return Produce<W, Ret>(*cp, st, 0);
                           }),
              c);
     } else {
       Extend(Attach<Mode>(std::move(h), c, s,
-                          [cp, st, g, enter](V v) {
+                          [cp, st, g, enter, hc = c.TakeCap()](V v) {
                             enter(g);
                             return Produce<W, Ret>(*cp, st, v);
                           }),
@@ -478,21 +508,21 @@ void Apply(H h, Ctx& c, const Step& s) {
     }
   } else if constexpr (Sig == 1) {
     Extend(Attach<Mode>(std::move(h), c, s,
-                        [cp, st, g, enter](R<V>&& r) {
+                        [cp, st, g, enter, hc = c.TakeCap()](R<V>&& r) {
                           enter(g);
                           return Produce<W, Ret>(*cp, st, static_cast<int>(r.State()));
                         }),
            c);
   } else if constexpr (Sig == 2) {
     Extend(Attach<Mode>(std::move(h), c, s,
-                        [cp, st, g, enter](TErr e) {
+                        [cp, st, g, enter, hc = c.TakeCap()](TErr e) {
                           enter(g);
                           return Produce<W, Ret>(*cp, st, e.code);
                         }),
            c);
   } else {
     Extend(Attach<Mode>(std::move(h), c, s,
-                        [cp, st, g, enter](std::exception_ptr e) {
+                        [cp, st, g, enter, hc = c.TakeCap()](std::exception_ptr e) {
                           enter(g);
                           return Produce<W, Ret>(*cp, st, ExcId(e));
                         }),
@@ -761,6 +791,10 @@ void RunReal(const Params& p, Outcome& o, int source_override = -1) {
   c.start = p.start;
   c.start_exec = p.start_exec;
   c.log.reserve(64);
+  c.caps.reserve(8);
+  for (int i = 0; i < 8; ++i) {
+    c.caps.emplace_back(i);
+  }
   const int source = source_override >= 0 ? source_override : p.source;
   const int se = p.se;
   vf::TS().Reset();
